@@ -543,6 +543,10 @@ fn corpus(jobs: &mut Vec<Job>) {
     let t = table(vec![("id", ColType::Id, ints(&[1, 2])), ("c1", ColType::Float("edges"), vec![Cell::f(f64::INFINITY), Cell::f(1.5)])]);
     jobs.push(Job { prefix: "corpus:minmax-float-infinity/".into(), t, reals: vec![one(2), fixed_real(vec![0, 1, 2], vec![true, false], false, 999, Mode::Mem), fixed_real(vec![0, 2], vec![true], false, 999, Mode::Disk)],
         queries: vec![q_agg(Kind::Grp, vec![Item::Key(0), Item::Agg("min", 1), Item::Agg("max", 1)], "w-+I:miFmaF")] });
+    // topn-nullable-fused (C05, repaired 082c667): nullable narrow key on the top-n path used to panic the worker
+    let t = table(vec![("id", ColType::Id, ints(&(0..8).collect::<Vec<i64>>())), ("c1", ColType::Int("u8"), oints(&[Some(1), None, Some(30), None, None, Some(7), None, None]))]);
+    jobs.push(Job { prefix: "corpus:topn-nullable-fused/".into(), t, reals: vec![one(8), fixed_real(vec![0, 3, 8], vec![true, false], false, 999, Mode::Mem), fixed_real(vec![0, 8], vec![true], false, 999, Mode::Disk)],
+        queries: vec![Query { kind: Kind::Ord, items: vec![Item::Expr(Ex::Col(0)), Item::Expr(Ex::Col(1))], pred: None, order: vec![(1, false)], limit: Some(3), offset: 0, feat: "w-+ki^+lim".into() }] });
     // topn-desc-nullable-string (C05/C02, open): DESC top-n over a nullable string key keeps the smallest strings
     let t = table(vec![("id", ColType::Id, ints(&(0..9).collect::<Vec<i64>>())), ("c1", ColType::Str("lowcard"), ostrs(&[Some("a"), Some("a"), Some("x"), Some("x"), Some("x"), Some("x"), Some("a"), None, None]))]);
     jobs.push(Job { prefix: "corpus:topn-desc-nullable-string/".into(), t, reals: vec![one(9), fixed_real(vec![0, 5, 7, 9], vec![true, false, true], false, 999, Mode::Mem), fixed_real(vec![0, 9], vec![true], false, 999, Mode::Cold)],
